@@ -35,6 +35,48 @@ fn read_sources(heap: &mut Heap, specs: &[String]) -> (HashMap<ModuleReference, 
   (m, names)
 }
 
+/// vdriver survive <file>   -> {"stages":"parse,check,render,ide,format,compile","errors":n,"compiled":bool}
+/// Everything C05 names, on one module text (read lossily as UTF-8): parsing, type checking, diagnostic rendering
+/// in the terminal and the IDE format, formatting, and whole-program compilation when there is no error.  A panic,
+/// stack overflow or hang shows as the exit status / a timeout of this process.
+pub fn survive_cmd(args: &[String]) {
+  let heap = &mut Heap::new();
+  let bytes = std::fs::read(&args[0]).expect("readable source");
+  let text = String::from_utf8_lossy(&bytes).to_string();
+  let mr = heap.alloc_module_reference_from_string_vec(vec!["Main".to_string()]);
+  let mut texts = HashMap::new();
+  texts.insert(mr, text.clone());
+  for (m, t) in samlang_parser::builtin_std_raw_sources(heap) {
+    texts.entry(m).or_insert(t);
+  }
+  let mut error_set = ErrorSet::new();
+  let mut parsed = HashMap::new();
+  for (m, t) in &texts {
+    parsed.insert(*m, samlang_parser::parse_source_module_from_text(t, *m, heap, &mut error_set));
+  }
+  let _ = samlang_checker::type_check_sources(&parsed, &mut error_set);
+  let rendered = error_set.pretty_print_error_messages(heap, &texts);
+  let mut ide = 0;
+  for e in error_set.errors() {
+    let _ = e.to_ide_format(heap, &texts);
+    ide += 1;
+  }
+  let formatted = samlang_printer::pretty_print_source_module(heap, 100, parsed.get(&mr).unwrap());
+  let n = error_set.errors().len();
+  let mut compiled = false;
+  if n == 0 {
+    compiled = samlang_compiler::compile_sources(heap, texts, vec![mr], false).is_ok();
+  }
+  println!(
+    "{{\"stages\":\"parse,check,render,ide,format,compile\",\"errors\":{},\"rendered_bytes\":{},\"ide\":{},\"formatted_bytes\":{},\"compiled\":{}}}",
+    n,
+    rendered.len(),
+    ide,
+    formatted.len(),
+    compiled
+  );
+}
+
 /// vdriver exprloc <file>   -> {"loc":[start line, start column, end line, end column],"errors":n}
 /// Parses the file as ONE expression with the real lexer + parser and prints the source range of the expression.
 pub fn exprloc_cmd(args: &[String]) {
